@@ -238,6 +238,9 @@ func TestVerifC13Watch(t *testing.T) {
 			for _, l := range in.leaves {
 				g, ok := flat[l.path]
 				switch {
+				case l.null:
+				case !ok && c13Omit[in.section+"/"+in.typ][l.path]:
+					// dropped by `omitempty` (the exact zero test is made by the load harness on the typed configuration)
 				case !ok:
 					out.Linef("viol sig=C13/effective/written-key-not-reflected where=watcher id=%s/%s path=%s", in.section, in.id(), l.path)
 				case l.secret:
